@@ -98,12 +98,36 @@ fn as_int(v: f64, frac: &mut u32) -> i64 {
 }
 
 fn seq_record(x: &[i64]) -> Value {
+    let vals: Vec<Vec<f64>> = RANK_EMBS.iter().filter_map(|name| embed_all(name, x)).collect();
+    seq_record_of(x, &vals, true)
+}
+
+/// equal values of x mapped alternately to +0.0 and -0.0 (numerically still a tie), the other values to w - c:
+/// None if x has no tie
+fn signed_zero(x: &[i64]) -> Option<Vec<f64>> {
+    let c = *x.iter().filter(|w| x.iter().filter(|u| u == w).count() >= 2).min()?;
+    let mut flip = false;
+    Some(
+        x.iter()
+            .map(|w| {
+                if *w == c {
+                    flip = !flip;
+                    if flip { 0.0 } else { -0.0 }
+                } else {
+                    (*w - c) as f64
+                }
+            })
+            .collect(),
+    )
+}
+
+fn seq_record_of(x: &[i64], vals: &[Vec<f64>], with_aff: bool) -> Value {
     let n = x.len();
     let mut frac = 0u32;
     let mut rank_rows = vec![];
     let mut p_rows = vec![];
-    for name in RANK_EMBS {
-        let Some(v) = embed_all(name, x) else { continue };
+    for v in vals {
+        let v = v.clone();
         let pet = pettitt(&v);
         let mk = mann_kendall(&v);
         let sel = vrt::catch(|| selection_adjusted_change_point(&v, 1, calibration())).unwrap_or_else(|_| {
@@ -129,6 +153,9 @@ fn seq_record(x: &[i64]) -> Value {
     let l = lcm_up_to(n.saturating_sub(1) as u64) as f64;
     let mut aff_rows = vec![];
     for (a, b) in AFF {
+        if !with_aff {
+            break;
+        }
         let v: Vec<f64> = x.iter().map(|t| (a * t + b) as f64).collect();
         let (ts, sl, ic) = match theil_sen_line(&v) {
             Some((s, i)) => (1, nr(s, 2.0 * l), nr(i, 4.0 * l)),
@@ -144,12 +171,16 @@ fn seq_record(x: &[i64]) -> Value {
 }
 
 fn split_record(x: &[i64], t: usize) -> Value {
+    let vals: Vec<Vec<f64>> = RANK_EMBS.iter().filter_map(|name| embed_all(name, x)).collect();
+    split_record_of(x, t, &vals)
+}
+
+fn split_record_of(x: &[i64], t: usize, vals: &[Vec<f64>]) -> Value {
     let n = x.len();
     let total = binom(n, t.min(n - t));
     let pairs2 = (2 * t * (n - t)) as f64;
     let mut rows = vec![];
-    for name in RANK_EMBS {
-        let Some(v) = embed_all(name, x) else { continue };
+    for v in vals {
         let (left, right) = v.split_at(t);
         let row = match (MannWhitneyU::new(left, right), MannWhitneyU::new(right, left)) {
             (Some(a), Some(b)) => {
@@ -185,6 +216,20 @@ fn cmd_ranks(cases: &str, out: &str) {
         for t in 1..x.len() {
             tr.emit(&split_record(&x, t));
             n += 1;
+        }
+        // probe: +0.0 and -0.0 are equal numbers, i.e. a tie
+        if x.len() <= 5 {
+            if let Some(v) = signed_zero(&x) {
+                let vals = vec![v];
+                let mut rec = seq_record_of(&x, &vals, false);
+                rec["tag"] = json!("signedzero");
+                tr.emit(&rec);
+                for t in 1..x.len() {
+                    let mut rec = split_record_of(&x, t, &vals);
+                    rec["tag"] = json!("signedzero");
+                    tr.emit(&rec);
+                }
+            }
         }
     }
     // empty sides
